@@ -721,6 +721,19 @@ def main():
             rep = {"vu": vu["name"], "title": vu.get("title", ""), "entries": [], "canaries": r["canaries"],
                    "cover": r["cover"], "extraction": r["log"], "part_of_property": vu.get("carries", ""),
                    "not_covered": vu.get("not_covered", "")}
+            # mechanical scan of the hand-written part of the unit (harness, stubs, environment): every assumption and
+            # every callee stub is an unchecked premise and is counted here
+            try:
+                htxt = ""
+                for fn in ("tu.cpp", "env.h"):
+                    fp = os.path.join(vu["_dir"], fn)
+                    if os.path.exists(fp):
+                        htxt += open(fp, errors="replace").read()
+                rep["harness_scan"] = {"cprover_assume": htxt.count("__CPROVER_assume("),
+                                       "uninterpreted_functions": sorted(set(re.findall(r"__CPROVER_uninterpreted_\w+", htxt))),
+                                       "nondet_calls": len(re.findall(r"\bnondet_\w+\(", htxt))}
+            except Exception:
+                pass
             for a in vu.get("assumptions", []):
                 assumptions.add(a)
             for a in vu.get("trusted", []):
